@@ -533,6 +533,16 @@ class CNF(SimpleSequence[Clause]):
         self._inequality_assertion(False, k, in_list)
 
     def _inequality_assertion(self, assert_less_than: bool, k: int, in_list: Sequence[Var]):
+        if in_list and assert_less_than and k > len(in_list):
+            # Fewer than `k` of the variables are always true, and the
+            # adder-based comparison below overflows for such a `k`
+            return
+        if in_list and not assert_less_than and k >= len(in_list):
+            # More than all of the variables can't be true (and the comparison
+            # below would overflow), so make the formula unsatisfiable directly
+            self.set_to_one(in_list[0])
+            self.zero_out([in_list[0]])
+            return
         in_binary = int_to_binary(k)
         sum_bits = self.pop_count(in_list, len(in_binary)+1)
         k_vars = self.get_n_fresh(len(in_binary))
